@@ -2,7 +2,7 @@
    scripts, validity flags, slot budget) and all op lists. [due s e d] = entry e is pending with
    due time d (a live handle in the heap); Inv = heap order + handle/entry bijection. *)
 From Coq Require Import ZArith List Sorted.
-From LTV.C19 Require Import Model ProofsHeap ProofsSched ProofsRun Proofs.
+From LTV.C19 Require Import Model ProofsHeap ProofsSched ProofsRun Proofs ProofsRange.
 Import ListNotations.
 Open Scope Z_scope.
 
@@ -112,12 +112,31 @@ Theorem wait_for_ceil_rounding : forall E s e dt s' b, Inv E s ->
 Proof. exact Proofs.wait_for_ceil_rounding. Qed.
 Print Assumptions wait_for_ceil_rounding.
 
-Theorem no_internal_error : forall E s e t, Inv E s ->
-  Z.max min_time_wait min_time_update <= t -> t <> 0 -> valid E e = true ->
+Theorem run2_inv : forall E n ops sA sB outs, wf_env E n ->
+  run2 E (init n, init n) ops = ((sA, sB), outs) -> Inv E sA /\ Inv E sB.
+Proof. exact Proofs.run2_inv. Qed.
+Print Assumptions run2_inv.
+
+Theorem internal_error_iff : forall E s b, snd (exec_basic E s b) = OErr <-> api_pre E s b = false.
+Proof. exact Proofs.internal_error_iff. Qed.
+Print Assumptions internal_error_iff.
+
+Theorem no_internal_error : forall E s e t,
+  Z.max min_time_wait min_time_update <= t -> t <> 0 -> valid E e = true -> foreign E e = false ->
   (handle_of s e = None -> snd (exec_basic E s (WaitUntil e t)) = OOk) /\
   snd (exec_basic E s (UpdUntil e t)) = OOk /\ snd (exec_basic E s (Erase e)) = OOk.
 Proof. exact Proofs.no_internal_error. Qed.
 Print Assumptions no_internal_error.
+
+(* int64: under the range hypotheses the checked (int64) evaluation never overflows and equals the model *)
+Theorem exec_basic_chk_agrees : forall E s b, Inv E s -> Rng s -> arg_ok b ->
+  exec_basic_chk E s b = Some (exec_basic E s b).
+Proof. exact ProofsRange.exec_basic_chk_agrees. Qed.
+Print Assumptions exec_basic_chk_agrees.
+
+Theorem range_preserved : forall E s b, Inv E s -> Rng s -> arg_ok b -> Rng (fst (exec_basic E s b)).
+Proof. exact ProofsRange.range_preserved. Qed.
+Print Assumptions range_preserved.
 
 Theorem params_ok_now : params_ok = true /\ 0 < min_time_wait /\ min_time_wait = min_time_update.
 Proof. exact Proofs.params_ok_now. Qed.
